@@ -82,6 +82,27 @@ def parseDkg : List String → Option DkgOp
                     sigs := sups.map (fun s => (s.idx, s.sig)), ids }, sups }
   | _ => none
 
+def parseMark (t : String) : Option (Bool × Nat) := do
+  let idx ← (t.drop 1).toString.toNat?
+  if t.startsWith "i" then pure (false, idx) else if t.startsWith "d" then pure (true, idx) else none
+
+/-- `dkgr`: the operating / misbehaved lists are derived from the marks the way the client does -/
+def parseDkgR : List String → Option DkgOp
+  | [c, sb, sub, x, y, marks, sups, ids] => do
+    let chainId ← parseHexNat c
+    let startBlock ← sb.toNat?
+    let submitter ← sub.toNat?
+    let x ← parseHexNat x
+    let y ← parseHexNat y
+    let marks ← (splitList marks).mapM parseMark
+    let sups ← parseSupporters sups
+    let ids ← parseNats ids
+    let st := applyMarks ids.length marks
+    pure { inp := { chainId, startBlock, submitter, x, y, operating := groupOperating ids.length st,
+                    misbehaved := resultMisbehaved st,
+                    sigs := sups.map (fun s => (s.idx, s.sig)), ids }, sups }
+  | _ => none
+
 structure ClaimOp where
   inp : ClaimInput
   sups : List Supporter
@@ -134,6 +155,9 @@ def modelInact (o : ClaimOp) : String :=
 def model (line : String) : String :=
   match splitWs line with
   | "dkg" :: rest => match parseDkg rest with
+    | some o => modelDkg o
+    | none => "bad-op"
+  | "dkgr" :: rest => match parseDkgR rest with
     | some o => modelDkg o
     | none => "bad-op"
   | "inact" :: rest => match parseInact rest with
@@ -198,8 +222,9 @@ def isFailureObs (obs : String) : Bool :=
 
 def monitor (op obs : String) : String :=
   match splitWs op with
-  | "dkg" :: rest =>
-    match parseDkg rest with
+  | kind :: rest =>
+   if kind = "dkg" || kind = "dkgr" then
+    match (if kind = "dkg" then parseDkg rest else parseDkgR rest) with
     | none => "FAIL bad-op"
     | some o =>
       let real := realIdx o.sups o.inp.ids.length
@@ -221,7 +246,7 @@ def monitor (op obs : String) : String :=
                 "validateFields:" ++ (validateFieldsGen ob.res).replace " " "_"
               else "signature-recovery-or-fields"
             "FAIL " ++ why
-  | "inact" :: rest =>
+   else if kind = "inact" then
     match parseInact rest with
     | none => "FAIL bad-op"
     | some o =>
@@ -241,6 +266,7 @@ def monitor (op obs : String) : String :=
                 "verifyClaim:" ++ (verifyClaimStaticGen ob.claim o.inp.ids.length).replace " " "_"
               else "signature-recovery-or-fields"
             "FAIL " ++ why
+   else "FAIL bad-op"
   | _ => "FAIL bad-op"
 
 def main (args : List String) : IO UInt32 := driverMain model monitor args
